@@ -1,5 +1,5 @@
 import DirectVerif.Driver.Common
-import DirectVerif.Model.MaskGeom
+import DirectVerif.Model.MaskInterior
 /-!
 Line-protocol interpreter of `Model/MaskGeom.lean` (shared by C04 and C06).
 
@@ -105,6 +105,55 @@ def opGenGauss (hdr shape par : List Int) (cands : List (List Int)) : String :=
     | _, _ => "err BadOp"
   | _, _ => "err BadOp"
 
+/-- KtUniform / KtGaussian1D: the k-t sample array is computed by the model from the comb index lists /
+the recorded `rng.choice` draws -/
+def opGenKt (uniform : Bool) (hdr shape par : List Int) (groups : List (List Int)) : String :=
+  match hdr, par with
+  | [gid, mi, racs], [l] =>
+    match genOf gid, modeOf mi with
+    | some g, some m =>
+      let shp := nats shape
+      let m := g.effectiveMode m
+      if shp.length < neededRank m then runAssemble g m shp (.lines l) (racs != 0) [] else
+      let cols := colsOf shp
+      let nt := framesOf m shp
+      if racs != 0 then runAssemble g m shp (.lines l) true (List.replicate nt []) else
+      -- the ACS block is built (and may raise) before the interior
+      match acsFrame g.family (rowsOf shp) cols (.lines l) [] with
+      | none => "err ValueError"
+      | some _ =>
+      let frames : Option (List (List Bool)) :=
+        if uniform then
+          match groups with
+          | [pIdx, tIdx] => (ktUniformFlat true cols nt pIdx tIdx).map (ktUniformFrames cols nt)
+          | _ => none
+        else (ktGaussianFlat cols nt groups).map (ktGaussianFrames cols nt)
+      match frames with
+      | none => "err IndexError"
+      | some fr => runAssemble g m shp (.lines l) false fr
+    | _, _ => "err BadOp"
+  | _, _ => "err BadOp"
+
+/-- Radial / Spiral: per frame the flat list of perimeter positions (`M` per nested square) -/
+def opGenCircus (hdr shape specG par : List Int) (frames : List (List Int)) : String :=
+  match hdr, par with
+  | [gid, mi, racs], [mPer] =>
+    match genOf gid, modeOf mi, specOf specG with
+    | some g, some m, some spec =>
+      let shp := nats shape
+      if shp.length < neededRank m then runAssemble g m shp spec (racs != 0) [] else
+      let rows := rowsOf shp
+      let cols := colsOf shp
+      let needInterior := racs == 0 || (match spec with | .search _ => true | _ => false)
+      if !needInterior then runAssemble g m shp spec true (List.replicate (framesOf m shp) []) else
+      let nsq := circusSide rows cols / 2
+      let pats := frames.map fun fl =>
+        circusFrame rows cols (if mPer = 0 then List.replicate nsq [] else chunksOf mPer.toNat (nats fl))
+      if pats.any Option.isNone then "err IndexError"
+      else runAssemble g m shp spec (racs != 0) (pats.filterMap id)
+    | _, _, _ => "err BadOp"
+  | _, _ => "err BadOp"
+
 def verdictOf : Int → Verdict
   | 0 => .within | 1 => .below | _ => .above
 
@@ -186,6 +235,27 @@ def step (op : String) (gs : List (List Int)) : String :=
   | "gen", [hdr, shape, specG, packed] => opGen hdr shape specG packed
   | "gen_magic", [hdr, shape, par, offsets] => opGenMagic hdr shape par offsets
   | "gen_gauss", hdr :: shape :: par :: cands => opGenGauss hdr shape par cands
+  | "gen_ktuniform", hdr :: shape :: par :: groups => opGenKt true hdr shape par groups
+  | "gen_ktgauss", hdr :: shape :: par :: groups => opGenKt false hdr shape par groups
+  | "gen_circus", hdr :: shape :: specG :: par :: frames => opGenCircus hdr shape specG par frames
+  | "linear2d", [[idx, row]] => let p := linear2d idx row; okG [[p.1, p.2]]
+  | "nearest", [[target, row], empty] =>
+    match findNearestEmpty target empty row with
+    | some e => okG [[e]]
+    | none => "err ValueError"
+  | "resolve", [[ny, nt], phase, time] =>
+    match resolveDuplicates phase time ny.toNat nt.toNat with
+    | some (p, t) => okG [p, t]
+    | none => "err ValueError"
+  | "square", [[side, sq]] => okG [(squareOrdered side.toNat sq.toNat).flatMap fun rc => [Int.ofNat rc.1, Int.ofNat rc.2]]
+  | "poisson", [[guard, nx, ny, den, r], mask, acts, script] =>
+    -- script: triples (i, qx, qy) with qx = -1 for "all attempts failed"
+    let s0 : PoissonState := { mask := mask.map (· != 0),
+                               actives := (chunksOf 2 acts).map fun p => ((p.getD 0 0).toNat, (p.getD 1 0).toNat) }
+    let evs := (chunksOf 3 script).map fun e =>
+      ((e.getD 0 0).toNat, if e.getD 1 0 < 0 then none else some (e.getD 1 0, e.getD 2 0))
+    let s := poissonRun (guard != 0) nx.toNat ny.toNat den r s0 evs
+    okG [bits s.mask, [Int.ofNat s.actives.length, b2i (poissonOverrun nx.toNat ny.toNat s)]]
   | "build", [[gid, mi]] =>
     match genOf gid, modeOf mi with
     | some g, some m =>
